@@ -261,6 +261,9 @@ def gen_core(seed, opts=None):
                for pol in plan['link'].values())
     if 'keepalive_ms' in plan['client'] and plan['client']['keepalive_ms'] < slow * 1000 * 20:
         plan['client']['keepalive_ms'] = 500 if slow <= 0.02 else 5000
+    if rng.random() < opts.get('log_debug', 0.15):
+        plan.setdefault('loop', {})
+        plan['loop'] = dict(plan['loop'], log_debug=True)  # frame tracing on (pyrsocket logger at DEBUG)
     est = _estimate_bytes(plan)
     for pol in plan['link'].values():
         if est > 3000 and pol.get('chunk') in (1, 2, 3):
